@@ -319,7 +319,51 @@ pub fn run_obs(args: &[String]) -> i32 {
                 changed.push(json!({"id": "nesting probe", "bytes": bytes_json(&b[..b.len().min(24)]), "input_len": b.len(), "before": o1["ok"], "after": o2["ok"], "borrowed_before": b1.get("bor_ok"), "borrowed_after": b2.get("bor_ok")}));
             }
         }
-        w.put(&json!({"id": "__history__", "vectors": vectors.len(), "rejected_inputs_fed": rejected, "changed": changed}));
+        // the same for the encoder: after encodes that fail (an atom too long, more atoms than a header can list) and encodes of
+        // other terms, every value must be encoded to the bytes it was encoded to before (all three encoder entry points)
+        let enc3 = |t: &OwnedTerm| -> Value {
+            let a = catch(|| erltf::encode(t).ok());
+            let mut wb: Vec<u8> = Vec::new();
+            let b_ = catch(|| erltf::encode_to_writer(t, &mut wb).is_ok());
+            // (the header form lists its atoms in an order that is not fixed from call to call: only whether it succeeds is compared)
+            let c = catch(|| erltf::encode_with_dist_header(t).is_ok());
+            json!([a.ok().flatten().map(|b| bytes_json(&b)), b_.ok().map(|ok| if ok { bytes_json(&wb) } else { Value::Null }), c.ok()])
+        };
+        let with_enc = opts["history_enc"].as_bool().unwrap_or(false);
+        let terms: Vec<Option<OwnedTerm>> = if with_enc { vectors.iter().map(|rec| catch(|| build(&rec["v"])).ok()).collect() } else { Vec::new() };
+        let enc_first: Vec<Value> = terms.iter().map(|t| t.as_ref().map(|t| enc3(t)).unwrap_or(Value::Null)).collect();
+        let mut failed_encodes = 0u64;
+        for round in 0..(if with_enc { 3 } else { 0 }) {
+            let long_atom = OwnedTerm::Atom(erltf::Atom::new(&"a".repeat(70_000 + round)));
+            for wrap in 0..4 {
+                let t = match wrap {
+                    0 => long_atom.clone(),
+                    1 => OwnedTerm::Tuple(vec![OwnedTerm::Integer(1), long_atom.clone()]),
+                    2 => OwnedTerm::List(vec![OwnedTerm::Tuple(vec![long_atom.clone()])]),
+                    _ => OwnedTerm::Map([(OwnedTerm::Integer(1), long_atom.clone())].into_iter().collect()),
+                };
+                for _ in 0..40 {
+                    if !matches!(catch(|| erltf::encode(&t).is_ok()), Ok(true)) { failed_encodes += 1; }
+                    let mut wb: Vec<u8> = Vec::new();
+                    let _ = catch(|| erltf::encode_to_writer(&t, &mut wb).is_ok());
+                    let _ = catch(|| erltf::encode_with_dist_header(&t).is_ok());
+                }
+            }
+            let many = OwnedTerm::Tuple((0..300).map(|i| OwnedTerm::Atom(erltf::Atom::new(&format!("atom{i}")))).collect());
+            for _ in 0..40 {
+                if !matches!(catch(|| erltf::encode_with_dist_header(&many).is_ok()), Ok(true)) { failed_encodes += 1; }
+            }
+        }
+        let mut changed_enc = Vec::new();
+        for ((rec, t), e1) in vectors.iter().zip(terms.iter()).zip(enc_first.iter()) {
+            if let Some(t) = t {
+                let e2 = enc3(t);
+                if e2 != *e1 && changed_enc.len() < 20 {
+                    changed_enc.push(json!({"id": rec["id"], "value": rec["v"], "which_differ": (0..3).filter(|&i| e1[i] != e2[i]).map(|i| ["encode", "encode_to_writer", "encode_with_dist_header"][i]).collect::<Vec<_>>()}));
+                }
+            }
+        }
+        w.put(&json!({"id": "__history__", "vectors": vectors.len(), "rejected_inputs_fed": rejected, "changed": changed, "failed_encodes": failed_encodes, "changed_enc": changed_enc}));
     }
     w.finish();
     0
